@@ -9,8 +9,9 @@ def correspond(ctx):
     ctx.extra["rule"] = ("random loop-free multigraphs n<=6 (parallel edges, isolated vertices), edge flags as variables / "
                          "negations / compound expressions / constants; program emitted by the real active_edges_acyclic vs the "
                          "Lean model's program (constraint multiset); distinct by call arguments"
-                         " + a handful of deterministic medium / LARGE instances per family (graphs.big_graphs: 40, 70 and 258..319 vertices -- vertex ids beyond CPython's small-int cache, more than 32 / 64 vertices --, boards up to 16x17); about half of the Graph objects are observed part-way through construction (accessors read, every graph constraint posted once on a throw-away Solver) before the remaining edges are added")
-    graphcorr.run_cases(ctx, graphcorr.case_acyclic, ctx.n(400, 6000), "acyclic", bigs=graphcorr.graph_bigs())
+                         " + a handful of deterministic medium / LARGE instances per family (graphs.big_graphs: 40, 70 and 258..319 vertices -- vertex ids beyond CPython's small-int cache, more than 32 / 64 vertices --, boards up to 16x17); about half of the Graph objects are observed part-way through construction (accessors read, every graph constraint posted once on a throw-away Solver) before the remaining edges are added"
+                         " + a deterministic sweep over EVERY size of a medium range (graphs.medium_graphs / medium_grids: for every n from 30 to 130 a star with a rim edge between its last two leaves and a path or cycle; boards of every height 30..130 with width 1 or 2 and a few transposed) -- block arithmetic in an encoder (sums cut into blocks of 24 / 40 / 50 ... with a leftover) changes branch at sizes nobody knows in advance")
+    graphcorr.run_cases(ctx, graphcorr.case_acyclic, ctx.n(400, 6000), "acyclic", bigs=graphcorr.graph_bigs() + graphcorr.medium_bigs())
     if not ctx.quick():
         for f in search(ctx, None, budget=40):
             ctx.disagree("semantic", what=f.what, data=f.data)
@@ -57,6 +58,32 @@ def _check_patterns(n, edges, negate, patterns):
     return None
 
 
+def last_edge_patterns(n, edges):
+    """[(name, flags)]: the shortest cycle through the LAST edge (if any: the path between its ends found by BFS without it, plus the
+    edge), that cycle minus one edge, everything, everything but the last edge, every edge at vertex 0."""
+    m = len(edges)
+    out = [("all", [True] * m), ("all but the last edge", [k != m - 1 for k in range(m)]), ("edges at vertex 0", [0 in e for e in edges]),
+           ("edges at vertex 0 and the last edge", [0 in e or k == m - 1 for k, e in enumerate(edges)])]
+    a, b = edges[-1]
+    prev, queue = {a: None}, [a]
+    while queue and b not in prev:
+        u = queue.pop(0)
+        for k in range(m - 1):
+            x, y = edges[k]
+            for p, q in ((x, y), (y, x)):
+                if p == u and q not in prev:
+                    prev[q] = (u, k)
+                    queue.append(q)
+    if b in prev:
+        cyc, v = {m - 1}, b
+        while prev[v] is not None:
+            cyc.add(prev[v][1])
+            v = prev[v][0]
+        out.insert(0, ("shortest cycle through the last edge", [k in cyc for k in range(m)]))
+        out.insert(1, ("that cycle minus its first edge", [k in cyc and k != min(cyc) for k in range(m)]))
+    return out
+
+
 def search(ctx, why, budget=None):
     found = {}
     for (n, edges) in graphs.small_graphs(ctx.rng, budget or ctx.n(30, 60), 5):
@@ -87,6 +114,29 @@ def search(ctx, why, budget=None):
             found["big"] = Finding(
                 "acyclic:large-graph",
                 f"active_edges_acyclic on a graph with {n} vertices and {len(edges)} edges (edges {edges[:4]} ... {edges[-6:]}), active edges"
+                f"{' (flags given negated)' if negate else ''} ({bad[0]}) = "
+                f"{bad[1] if bad[1] is None or len(bad[1]) <= 14 else str(bad[1][:6]) + ' ... ' + str(bad[1][-6:])}: satisfiable={bad[2]} expected {bad[3]}" + graphs.history_note(n, edges),
+                {"big": True, "n": n, "edges": edges, "negate": negate, "pattern_name": bad[0], "active_edges": bad[1]})
+    # EVERY size of the medium range: the star whose hub has degree n - 1 and whose only cycle runs through the hub's LAST two incident
+    # edges, and a path / cycle (per-vertex sums cut into blocks change branch at degrees nobody knows in advance)
+    medium = []
+    for n in range(graphs.MEDIUM_RANGE[0], graphs.MEDIUM_RANGE[1] + 1):
+        medium.append(graphs.star_rim_graph(n))
+        if n % 3 == 0:
+            medium.append(graphs.cycle_graph(n) if n % 2 else graphs.path_graph(n))
+    for idx, (n, edges) in enumerate(medium):
+        if "medium" in found:
+            break
+        negate = idx % 5 == 4
+        try:
+            bad = _check_patterns(n, edges, negate, last_edge_patterns(n, edges)[:4])
+        except Exception as e:
+            bad = ("exception", None, core.err_name(e), str(e)[:200])
+        ctx.count("search:acyclic:medium")
+        if bad:
+            found["medium"] = Finding(
+                "acyclic:medium-graph",
+                f"active_edges_acyclic on {graphs.instance_name(n, edges)} ({n} vertices, edges {edges[:3]} ... {edges[-3:]}), active edges"
                 f"{' (flags given negated)' if negate else ''} ({bad[0]}) = "
                 f"{bad[1] if bad[1] is None or len(bad[1]) <= 14 else str(bad[1][:6]) + ' ... ' + str(bad[1][-6:])}: satisfiable={bad[2]} expected {bad[3]}" + graphs.history_note(n, edges),
                 {"big": True, "n": n, "edges": edges, "negate": negate, "pattern_name": bad[0], "active_edges": bad[1]})
